@@ -374,6 +374,10 @@ def run(ctx):
     ctx.extra["constructors"] = len(tbl)
     ctx.extra["constructors_with_unsupported_field_types"] = len(unsupported)
     ctx.extra["unsupported_sample"] = unsupported[:15]
+    # two schema sets are independent objects: configuring one (untouchable fields) must not change what the other parses
+    r = core.call_impl(lambda _: schema_independence_case(), None)
+    if r != "ok":
+        ctx.fail("tl-schemas-share-state", r, {"schemas": r})
     # block id helpers
     for _ in range(ctx.n(50, 500)):
         r = core.call_impl(lambda _: blockid_case(rng), None)
@@ -412,6 +416,24 @@ def shadowed(v, lib):
     return False
 
 
+def schema_independence_case():
+    from pytoniq_core.tl.generator import TlGenerator
+    a = TlGenerator.with_default_schemas().generate()
+    inner = a.serialize(a.get_by_name("adnl.message.nop"), {})
+    outer_answer = a.serialize(a.get_by_name("adnl.message.answer"), {"query_id": b"\x01" * 32, "answer": inner})
+    outer_part = a.serialize(a.get_by_name("adnl.message.part"), {"hash": b"\x02" * 32, "total_size": 4, "offset": 0, "data": inner})
+    before = (a.deserialize(outer_answer)[0], a.deserialize(outer_part)[0])
+    a.untouchables["adnl.message.answer"] = {"answer"}
+    a.untouchables.pop("adnl.message.part", None)
+    b = TlGenerator.with_default_schemas().generate()
+    after = (b.deserialize(outer_answer)[0], b.deserialize(outer_part)[0])
+    if after != before:
+        return "a fresh schema set parses differently after another set's untouchable fields were changed"
+    if not isinstance(before[0].get("answer"), dict) or not isinstance(before[1].get("data"), (bytes, bytearray)):
+        return "default auto-deserialisation: adnl.message.answer.answer must be parsed, adnl.message.part.data left raw"
+    return "ok"
+
+
 def blockid_case(rng):
     from pytoniq_core.tl.block import BlockId, BlockIdExt
     import struct
@@ -435,6 +457,14 @@ def blockid_case(rng):
             return "hash: equal ids are different dictionary keys"
     except TypeError as e:
         return f"hash: not usable as a dictionary key ({e})"
+    # the constructor accepts each hash as bytes or as hex text, independently of the other
+    for r_form, f_form in ((rh.hex(), fh.hex()), (rh, fh.hex()), (rh.hex(), fh), (rh.hex().upper(), fh)):
+        try:
+            m = BlockIdExt(wc, shard, seqno, r_form, f_form)
+            if m.to_bytes() != want or m != b or {b: 1}.get(m) != 1 or BlockIdExt.from_dict(m.to_dict()) != b:
+                return "forms: a block id given with hex/bytes hashes differs from the same id given with bytes"
+        except Exception as e:
+            return f"forms: hashes given as {type(r_form).__name__}/{type(f_form).__name__}: {type(e).__name__}"
     i = BlockId(b.workchain, b.shard, b.seqno)
     j = BlockId.from_dict(i.to_dict())
     if (j.workchain, j.shard, j.seqno) != (i.workchain, i.shard, i.seqno):
@@ -444,6 +474,9 @@ def blockid_case(rng):
 
 def replay(ctx, obj):
     c = obj["case"]
+    if "schemas" in c:
+        r = core.call_impl(lambda _: schema_independence_case(), None)
+        return None if r == "ok" else r
     if "blockid" in c:
         return "randomised sub-check: re-run the check with the same seed"
     v = c["value"]
